@@ -31,7 +31,7 @@ fn run_vbp(vbp_link: &Path, shim: &Path, t: &Path, k: i64, errno: i32, log: Opti
     let _ = std::fs::remove_dir_all(t.join("vout"));
     std::fs::create_dir_all(t.join("vout")).unwrap();
     let mut c = Command::new(vbp_link);
-    c.arg(&layers).arg(t.join("platform")).arg(t.join("plan.toml")).current_dir(t.join("app")).env_clear()
+    c.arg(&layers).arg(t.join("platform")).arg(t.join("plan.toml")).current_dir(t.join("app")).env_clear().envs(std::env::var_os("LLVM_PROFILE_FILE").map(|v| ("LLVM_PROFILE_FILE", v)))
         .env("LD_PRELOAD", shim).env("FAULT_PREFIX", &layers).env("FAULT_K", k.to_string()).env("FAULT_ERRNO", errno.to_string()).env("FAULT_ACTIVE", "1")
         .env("VBP_SCRIPT", t.join("script.json")).env("VBP_OUT", t.join("vout")).env("CNB_BUILDPACK_DIR", t.join("bp"))
         .env("CNB_TARGET_OS", "linux").env("CNB_TARGET_ARCH", "amd64").env("CNB_TARGET_DISTRO_NAME", "ubuntu").env("CNB_TARGET_DISTRO_VERSION", "24.04");
